@@ -1,6 +1,7 @@
 //! C04 — zone-aware date-times: one instant, many wall clocks. Shapes P (instants x offsets) + H (one replacement / stepping step).
 use chrono::{DateTime, Datelike, Days, FixedOffset, MappedLocalTime, Months, NaiveDateTime, TimeZone, Timelike, Utc};
 use chrono_mc::core::*;
+use chrono_mc::gfzone::*;
 use chrono_mc::lattice::*;
 use chrono_mc::refcal::*;
 use serde_json::json;
@@ -358,62 +359,13 @@ fn offset_constructors(acc: &mut Acc) {
     }
 }
 
-// ---- a zone with one skipped and one repeated hour: the generic code paths FixedOffset never takes ----------------
-// +01:00 until 2021-03-28T01:00:00Z, +02:00 until 2021-10-31T01:00:00Z, +01:00 afterwards
-const GF_T1: i64 = 1_616_893_200;
-const GF_T2: i64 = 1_635_642_000;
-#[derive(Clone, Copy, Debug, PartialEq, Eq)]
-struct GapFold;
-#[derive(Clone, Copy, Debug, PartialEq, Eq)]
-struct GfOff(i32);
-impl chrono::Offset for GfOff {
-    fn fix(&self) -> FixedOffset {
-        FixedOffset::east_opt(self.0).unwrap()
-    }
-}
-fn gf_offset_at(utc_secs: i64) -> i32 {
-    if utc_secs >= GF_T1 && utc_secs < GF_T2 {
-        7200
-    } else {
-        3600
-    }
-}
-/// the readings of a wall clock (seconds since the epoch read as if it were UTC): earliest instant first
-fn gf_resolve(wall_secs: i64) -> Vec<(i64, i32)> {
-    let mut v: Vec<(i64, i32)> = [7200, 3600].iter().map(|&o| (wall_secs - o as i64, o)).filter(|&(u, o)| gf_offset_at(u) == o).collect();
-    v.sort();
-    v
-}
-impl TimeZone for GapFold {
-    type Offset = GfOff;
-    fn from_offset(_: &GfOff) -> Self {
-        GapFold
-    }
-    fn offset_from_local_date(&self, _: &chrono::NaiveDate) -> MappedLocalTime<GfOff> {
-        MappedLocalTime::None
-    }
-    fn offset_from_local_datetime(&self, local: &NaiveDateTime) -> MappedLocalTime<GfOff> {
-        let r = gf_resolve(local.and_utc().timestamp());
-        match r.len() {
-            0 => MappedLocalTime::None,
-            1 => MappedLocalTime::Single(GfOff(r[0].1)),
-            _ => MappedLocalTime::Ambiguous(GfOff(r[0].1), GfOff(r[1].1)),
-        }
-    }
-    fn offset_from_utc_date(&self, _: &chrono::NaiveDate) -> GfOff {
-        GfOff(3600)
-    }
-    fn offset_from_utc_datetime(&self, utc: &NaiveDateTime) -> GfOff {
-        GfOff(gf_offset_at(utc.and_utc().timestamp()))
-    }
-}
-
+// ---- a zone with one skipped and one repeated hour: the generic code paths FixedOffset never takes (gfzone.rs) ----
 /// One step of every field replacement and calendar step from states around the gap and the fold. The statement says
 /// these act on the wall-clock reading: a result must show exactly the new wall clock and be one of its readings in the
 /// zone; a wall clock with exactly one reading must be produced; a skipped one cannot be; a repeated one may be
 /// refused or answered with either reading.
 fn zone_with_gap_and_fold(acc: &mut Acc) {
-    let tz = GapFold;
+    let tz = GAPFOLD_2021;
     let mut starts: Vec<i64> = vec![];
     for t in [GF_T1, GF_T2] {
         for h in -6i64..=6 {
@@ -432,30 +384,48 @@ fn zone_with_gap_and_fold(acc: &mut Acc) {
     for &u in &starts {
         for nano in [0u32, 999_999_999] {
             let ndt = DateTime::from_timestamp(u, nano).unwrap().naive_utc();
-            let dt: DateTime<GapFold> = tz.from_utc_datetime(&ndt);
-            let off = gf_offset_at(u);
+            let dt: DateTime<Gz> = tz.from_utc_datetime(&ndt);
+            let off = tz.offset_at(u);
             let w = u + off as i64; // wall clock as seconds
             acc.states += 1;
             acc.transitions += 1;
             let wl = DateTime::from_timestamp(w, nano).unwrap().naive_utc();
-            if dt.naive_local() != wl || dt.offset().0 != off || dt.naive_utc() != ndt || (dt.hour(), dt.minute(), dt.second()) != ((w.rem_euclid(86400) / 3600) as u32, (w.rem_euclid(3600) / 60) as u32, w.rem_euclid(60) as u32) {
+            if dt.naive_local() != wl || dt.offset().off != off || dt.naive_utc() != ndt || (dt.hour(), dt.minute(), dt.second()) != ((w.rem_euclid(86400) / 3600) as u32, (w.rem_euclid(3600) / 60) as u32, w.rem_euclid(60) as u32) {
                 acc.violation("DateTime<zone>:reading", format!("wall clock of {:?} in the gap/fold zone", ndt), format!("{:?} at {}", wl, off), format!("{:?} at {:?}", dt.naive_local(), dt.offset()));
                 continue;
             }
             // elapsed-time arithmetic and zone conversion land on the exact instant *with the zone's offset there*
             for delta in [1i64, -1, 1800, -1800, 3600, -3600, 7200, -7200, 86_400, -86_400, 217 * 86_400, -217 * 86_400] {
                 let td = chrono::TimeDelta::seconds(delta);
-                let want = (u + delta, gf_offset_at(u + delta));
+                let want = (u + delta, tz.offset_at(u + delta));
                 acc.transitions += 3;
-                let a = guard(|| dt.checked_add_signed(td).map(|x| (x.naive_utc().and_utc().timestamp(), x.offset().0)));
+                let a = guard(|| dt.checked_add_signed(td).map(|x| (x.naive_utc().and_utc().timestamp(), x.offset().off)));
                 let b = guard(|| {
                     let x = dt + td;
-                    (x.naive_utc().and_utc().timestamp(), x.offset().0)
+                    (x.naive_utc().and_utc().timestamp(), x.offset().off)
                 });
                 let c = guard(|| {
                     let x = Utc.timestamp_opt(u + delta, nano).unwrap().with_timezone(&tz);
-                    (x.naive_utc().and_utc().timestamp(), x.offset().0)
+                    (x.naive_utc().and_utc().timestamp(), x.offset().off)
                 });
+                let sd = std::time::Duration::from_secs(delta.unsigned_abs());
+                let e = guard(|| {
+                    let (mut x, mut y) = (dt, dt);
+                    if delta >= 0 {
+                        x += td;
+                        y += sd;
+                        (x, y, dt + sd)
+                    } else {
+                        x -= -td;
+                        y -= sd;
+                        (x, y, dt - sd)
+                    }
+                })
+                .map(|(x, y, z)| [x, y, z].map(|v| (v.naive_utc().and_utc().timestamp(), v.offset().off)));
+                acc.transitions += 3;
+                if e != Ok([want, want, want]) {
+                    acc.violation("DateTime<zone>:assign-and-std-Duration-forms", format!("[{:?} at offset {}] {} {} s through += / -= TimeDelta, += / -= std Duration, and the std Duration operator", wl, off, if delta >= 0 { "+" } else { "-" }, delta.abs()), format!("instant {} at the zone's offset {}", want.0, want.1), format!("{:?}", e));
+                }
                 if a != Ok(Some(want)) || b != Ok(want) || c != Ok(want) {
                     acc.violation("DateTime<zone>:elapsed-time-and-conversion", format!("[{:?} at offset {}] + {} s [checked_add_signed / operator] and the same instant converted from Utc", wl, off, delta), format!("instant {} at the zone's offset {}", want.0, want.1), format!("{:?} / {:?} / {:?}", a, b, c));
                 }
@@ -469,7 +439,7 @@ fn zone_with_gap_and_fold(acc: &mut Acc) {
                 let (ty, tm) = (ym.div_euclid(12), ym.rem_euclid(12) as u32 + 1);
                 date(ty, tm, d.min(days_in_month(ty, tm)))
             };
-            let mut cases: Vec<(String, Result<Option<DateTime<GapFold>>, String>, Option<(i64, u32)>)> = vec![];
+            let mut cases: Vec<(String, Result<Option<DateTime<Gz>>, String>, Option<(i64, u32)>)> = vec![];
             for h in 0..24u32 {
                 cases.push((format!("with_hour({})", h), guard(|| dt.with_hour(h)), at(wz, h * 3600 + ws % 3600, nano)));
             }
@@ -511,8 +481,8 @@ fn zone_with_gap_and_fold(acc: &mut Acc) {
                         continue;
                     }
                 };
-                let readings = want.map(|(ws2, _)| gf_resolve(ws2)).unwrap_or_default();
-                let shown = got.as_ref().map(|g| (g.naive_local().and_utc().timestamp(), g.naive_local().and_utc().timestamp_subsec_nanos(), g.naive_utc().and_utc().timestamp(), g.offset().0));
+                let readings = want.map(|(ws2, _)| tz.resolve(ws2)).unwrap_or_default();
+                let shown = got.as_ref().map(|g| (g.naive_local().and_utc().timestamp(), g.naive_local().and_utc().timestamp_subsec_nanos(), g.naive_utc().and_utc().timestamp(), g.offset().off));
                 let ok = match (&shown, want) {
                     (None, None) => true,
                     (None, Some(_)) => readings.len() != 1,
@@ -527,7 +497,7 @@ fn zone_with_gap_and_fold(acc: &mut Acc) {
                             None => "None (no such date / time)".to_string(),
                             Some((ws2, n2)) => format!("wall clock {:?} .{:09}: {}", DateTime::from_timestamp(ws2, 0).unwrap().naive_utc(), n2, match readings.len() { 0 => "skipped, so None".to_string(), 1 => format!("its one reading at offset {}", readings[0].1), _ => "repeated: None or either reading".to_string() }),
                         },
-                        format!("{:?}", got.map(|g| (g.naive_local(), g.offset().0))),
+                        format!("{:?}", got.map(|g| (g.naive_local(), g.offset().off))),
                     );
                 } else {
                     match (want.is_some(), readings.len()) {
@@ -655,6 +625,7 @@ fn main() {
             }
             offset_constructors(acc);
             zone_with_gap_and_fold(acc);
+            range_end_safety(acc, Z_SINGLE);
             acc.traces += 1;
         }
     });
